@@ -410,7 +410,11 @@ pub fn run_scenario(sc: &Value, ex: &mut Exec) -> usize {
         emit(
             ex,
             json!({"ev": "Crashed", "ret": "ok", "retk": "ok", "o": true, "obs": o, "t": hh.get_clock(), "errs": [],
-                   "inj": 0, "injp": [], "faultleft": 0, "at": sc.get("crashed_at").cloned().unwrap_or(json!(""))}),
+                   "inj": 0, "injp": [], "faultleft": 0, "at": sc.get("crashed_at").cloned().unwrap_or(json!("")),
+                   // the call that was running when the process was killed, and the number (within that call) of the
+                   // file-system effect it was killed in front of (conform mode with kills, TraceFlwF.tla)
+                   "inflight": sc.get("inflight").cloned().unwrap_or(json!({"op": "?", "len": 0})),
+                   "j": sc.get("j").cloned().unwrap_or(json!(0)), "fx": [], "fxf": []}),
         );
     }
 
